@@ -57,10 +57,13 @@ contract(f"{BTPH}:BTPAHeader.encode", returns=T.bytes_n(4), props=P, shapes={"se
          requires=["0 <= self.destination_port < 65536", "0 <= self.source_port < 65536"],
          ensures={"wire": "result == (self.destination_port * 65536 + self.source_port).to_bytes(4, 'big')"},
          canary={"swapped": "result == (self.source_port * 65536 + self.destination_port).to_bytes(4, 'big') and self.source_port != self.destination_port"}, **S)
-contract(f"{BTPH}:BTPAHeader.decode", props=P, shapes={"data": T.bytes(4, 2000)},
-         ensures={"fields": "result.destination_port == be(data, 0, 2) and result.source_port == be(data, 2, 2)"}, **S)
+_BTP_IN = T.oneof(T.bytes(4, 2000), T.bytes_n(0), T.bytes_n(1), T.bytes_n(2), T.bytes_n(3))
+contract(f"{BTPH}:BTPAHeader.decode", props=P + ["C04"], shapes={"data": _BTP_IN},
+         ensures={"fields": "implies(len(data) >= 4, result.destination_port == be(data, 0, 2) and result.source_port == be(data, 2, 2))",
+                  "a_payload_shorter_than_the_header_raises_nothing": "implies(len(data) < 4, 0 <= result.destination_port < 65536 and 0 <= result.source_port < 65536)"}, **S)
 contract(f"{BTPH}:BTPBHeader.encode", returns=T.bytes_n(4), props=P, shapes={"self": BTPB},
          requires=["0 <= self.destination_port < 65536", "0 <= self.destination_port_info < 65536"],
          ensures={"wire": "result == (self.destination_port * 65536 + self.destination_port_info).to_bytes(4, 'big')"}, **S)
-contract(f"{BTPH}:BTPBHeader.decode", props=P, shapes={"data": T.bytes(4, 2000)},
-         ensures={"fields": "result.destination_port == be(data, 0, 2) and result.destination_port_info == be(data, 2, 2)"}, **S)
+contract(f"{BTPH}:BTPBHeader.decode", props=P + ["C04"], shapes={"data": _BTP_IN},
+         ensures={"fields": "implies(len(data) >= 4, result.destination_port == be(data, 0, 2) and result.destination_port_info == be(data, 2, 2))",
+                  "a_payload_shorter_than_the_header_raises_nothing": "implies(len(data) < 4, 0 <= result.destination_port < 65536 and 0 <= result.destination_port_info < 65536)"}, **S)
